@@ -105,6 +105,8 @@ def mech_jobs(r, n):
         for o in progs.random_ops(r, nfn, r.randint(4, 8), ctx=True, batch=True):
             if o["op"] == "Call":
                 o["mod"] = "normal"
+            if o["op"] == "Batch":
+                o["mod"] = "normal"
             if o["op"] == "Batch" and o["how"] != "call_batch":
                 o["how"], o["rf"] = "map", True
             ops.append(o)
